@@ -285,6 +285,7 @@ def eagerStep (s : Sys) (m : Mod) (failHint : Bool) : Option Sys :=
     else none
   | .startCleanup => if x.inner.terminal then some (s.step (.cleanupDone m)) else none
   | .run => if x.wctx || x.inner.terminal then some (s.step (.runExit m)) else none
+  | .stopEntry => some (s.step (.stopLooks m))
   | .stopWait =>
     if (s.stopDeps m).all (fun k => (s.st k).ph.terminal) then some (s.step (.dependantsGone m)) else none
   | .innerStop => if x.inner.terminal then some (s.step (.innerStopped m)) else none
@@ -344,9 +345,7 @@ def handleRun (f : List String) : String × String × String :=
       | .error _ => (if obs == "initerr" then "-" else "model=initerr", "-", "k=run initerr")
       | .ok ist =>
         let order := ist.svcs.mergeSort
-        let startDeps := fun (m : Mod) => ((dependenciesFor g fuel m).getD []).filter order.contains
-        let stopDeps := fun (m : Mod) => ((inverseDeps g fuel m).getD []).filter order.contains
-        let sys0 : Sys := { mods := order, startDeps, stopDeps, st := fun _ => {} }
+        let sys0 : Sys := wrapperSys g fuel order
         let acts := if actsS == "-" || actsS == "" then [] else actsS.splitOn " "
         let raws := obs.splitOn " | "
         let implStates := raws.map fun r => (r.splitOn ";").headD ""
@@ -373,6 +372,18 @@ def handleRun (f : List String) : String × String × String :=
             match p.splitOn ":" with | [i, _] => some (natOf i) | _ => none
           let depsOf := fun (m : Mod) => (reach g m).filter svcMods.contains
           let dependantsOf := fun (m : Mod) => svcMods.filter fun x => (reach g x).contains m
+          -- wrappers that have been Running at some time of the case (callbacks are asynchronous: a wrapper
+          -- seen Running in a snapshot has run as well; a wrapper never runs after its start was given up)
+          let ranAll := (events.filterMap fun ev => match ev.splitOn "." with | ["wrun", m] => some (natOf m) | _ => none) ++
+            svcMods.filter fun d => implStates.any fun st => implW st d == some 'R'
+          -- at quiescence a wrapper cannot still be waiting for dependencies (Starting, own service not started)
+          -- once every one of them has left New/Starting: it either starts its service or fails
+          for st in implStates do
+            for m in svcMods do
+              let mine := (st.splitOn " ").find? fun p => (p.splitOn ":").headD "" == toString m
+              if (mine.map fun p => ((p.splitOn ":").getD 1 "").startsWith "SN") == some true then
+                if (depsOf m).all fun d => match implW st d with | some c => c != 'N' && c != 'S' | none => false then
+                  bad := add bad "waiting-wrapper-not-released"
           let mut seenRun : List Mod := []
           let mut innerStarted : List Mod := []
           for ev in events do
@@ -388,8 +399,10 @@ def handleRun (f : List String) : String × String × String :=
                   bad := add bad "started-before-dependency-running"
             | ["stopreq", m, ist, wv] =>
               let m := natOf m
-              -- a running service is stopped only after every module depending on it has stopped
-              if ist == "R" then
+              -- a service that has been running as a module (its wrapper was Running) is stopped only after
+              -- every module depending on it has stopped; the clean-up stop after a start that was given up
+              -- (wrapper never Running) does not wait: no dependant can have been started
+              if ist == "R" && ranAll.contains m then
                 for x in dependantsOf m do
                   let c := wv.toList.getD (svcMods.idxOf x) '?'
                   if c != 'T' && c != 'F' then bad := add bad "stopped-before-dependant-stopped"
